@@ -560,9 +560,9 @@ func libraryDeadlock(dump string) (string, int) {
 }
 
 // c14ListenerWaitsForSibling: a user listener of a shared per-execution policy executor is slow (here: it waits until the
-// whole execution has returned, bounded by 6s) while a sibling attempt of the same execution - a hedge - succeeds. The
+// whole execution has returned, bounded by 20s) while a sibling attempt of the same execution - a hedge - succeeds. The
 // library must not hold one of its own locks across the listener: the sibling's success has to be delivered while the
-// listener is still running. Decided by elapsed time with a wide margin (milliseconds vs 6s); between 3s and 6s inconclusive.
+// listener is still running. Decided by elapsed time with a wide margin (milliseconds vs 20s); between 10s and 20s inconclusive.
 func c14ListenerWaitsForSibling(rep *vk.Report, idx int) {
 	r := vk.Rng(rep.Seed, "C14l", idx)
 	which := vk.Pick(r, "failure", "failure", "exceeded", "abort", "scheduled")
@@ -572,7 +572,7 @@ func c14ListenerWaitsForSibling(rep *vk.Report, idx int) {
 		if blocked.Add(1) == 1 {
 			select {
 			case <-released:
-			case <-time.After(6 * time.Second):
+			case <-time.After(20 * time.Second):
 			}
 		}
 	}
@@ -610,10 +610,10 @@ func c14ListenerWaitsForSibling(rep *vk.Report, idx int) {
 	switch {
 	case blocked.Load() == 0:
 		rep.Count("listener_scenarios_without_listener_call", 1)
-	case took >= 6*time.Second:
+	case took >= 20*time.Second:
 		rep.Violate(idx, prop14("sibling-attempt-blocked-behind-user-listener"), fmt.Sprintf("Hedge(Retry(fn)): the first attempt failed and the retry policy's %s listener was still running (it returns when the execution has returned); the hedged attempt succeeded at once but the call returned (%d,%v) only after %v - the hedged attempt was stuck on a lock the library holds across the listener", which, res, err, took), cs)
-	case took >= 3*time.Second:
-		rep.Inconclusive(fmt.Sprintf("C14 listener scenario %d took %v (between 3s and 6s)", idx, took))
+	case took >= 10*time.Second:
+		rep.Inconclusive(fmt.Sprintf("C14 listener scenario %d took %v (between 10s and 20s)", idx, took))
 	case err != nil || res != 7:
 		rep.Violate(idx, prop14("hedged-success-not-delivered"), fmt.Sprintf("Hedge(Retry(fn)) with a slow %s listener: the hedged attempt returned (7,nil) but the call returned (%d,%v)", which, res, err), cs)
 	default:
